@@ -379,7 +379,7 @@ package decimal
 //@   label U1+46 hint mul_eq(P(SI-1), 1000000000000000000000000000000000000000000000000000000000*P(SI-4), old(x[SI-1]) + old(y[SI-1]))
 //@   label U1+46 hint assert(V(z[:SI]) + (CX == 0 ? 0 : 1)*P(SI) == old(V(x[:SI])) + old(V(y[:SI])))
 //@   label U1+46 hint assert(wordsok(z[:SI]))
-//@   label V1+0 hint forget0(AX, BX, R11, R12, R13, R14, (DI + 4) % 18446744073709551616 == len(z) - SI && 0 <= SI && SI <= len(z) && len(z) - SI < 4 && (CX == 0 || CX == 18446744073709551615) && wordsok(z[:SI]) && V(z[:SI]) + (CX == 0 ? 0 : 1)*P(SI) == old(V(x[:SI])) + old(V(y[:SI])) && (forall k in SI..len(z) :: x[k] == old(x[k]) && y[k] == old(y[k])))
+//@   label V1+0 hint forget0(AX, BX, R11, R12, R13, R14, (DI + 4) % 18446744073709551616 == len(z) - SI && 0 <= SI && SI <= len(z) && (CX == 0 || CX == 18446744073709551615) && wordsok(z[:SI]) && V(z[:SI]) + (CX == 0 ? 0 : 1)*P(SI) == old(V(x[:SI])) + old(V(y[:SI])) && (forall k in SI..len(z) :: x[k] == old(x[k]) && y[k] == old(y[k])))
 //@   label L1 invariant[range] 0 <= SI && SI < len(z) && DI == len(z) - SI && (CX == 0 || CX == 18446744073709551615)
 //@   label L1 invariant[words] wordsok(z[:SI])
 //@   label L1 invariant[value] V(z[:SI]) + (CX == 0 ? 0 : 1)*P(SI) == old(V(x[:SI])) + old(V(y[:SI]))
@@ -438,7 +438,7 @@ package decimal
 //@   label U2+34 hint mul_eq(P(SI-1), 1000000000000000000000000000000000000000000000000000000000*P(SI-4), old(y[SI-1]))
 //@   label U2+34 hint assert(V(z[:SI]) + old(V(y[:SI])) == old(V(x[:SI])) + (CX == 0 ? 0 : 1)*P(SI))
 //@   label U2+34 hint assert(wordsok(z[:SI]))
-//@   label V2+0 hint forget0(AX, BX, R11, R12, R13, R14, (DI + 4) % 18446744073709551616 == len(z) - SI && 0 <= SI && SI <= len(z) && len(z) - SI < 4 && (CX == 0 || CX == 18446744073709551615) && wordsok(z[:SI]) && V(z[:SI]) + old(V(y[:SI])) == old(V(x[:SI])) + (CX == 0 ? 0 : 1)*P(SI) && (forall k in SI..len(z) :: x[k] == old(x[k]) && y[k] == old(y[k])))
+//@   label V2+0 hint forget0(AX, BX, R11, R12, R13, R14, (DI + 4) % 18446744073709551616 == len(z) - SI && 0 <= SI && SI <= len(z) && (CX == 0 || CX == 18446744073709551615) && wordsok(z[:SI]) && V(z[:SI]) + old(V(y[:SI])) == old(V(x[:SI])) + (CX == 0 ? 0 : 1)*P(SI) && (forall k in SI..len(z) :: x[k] == old(x[k]) && y[k] == old(y[k])))
 //@   label L2 invariant[range] 0 <= SI && SI < len(z) && DI == len(z) - SI && (CX == 0 || CX == 18446744073709551615)
 //@   label L2 invariant[words] wordsok(z[:SI])
 //@   label L2 invariant[value] V(z[:SI]) + old(V(y[:SI])) == old(V(x[:SI])) + (CX == 0 ? 0 : 1)*P(SI)
@@ -458,7 +458,106 @@ package decimal
 //@   tags safety C04,C07
 //@ func add10VW(z, x []Word, y Word) (c Word)
 //@   same add10VW_g
-//@   status assumed assembly
+//@   asm dec_arith_amd64.s
+//@   label $entry+21 hint forget0(AX, BX, SI == 1 && CX <= 1 && DI == len(z) - 1 && len(z) >= 1 && z[0] + CX*10000000000000000000 == old(x[0]) + y && 0 <= z[0] && z[0] < B && (forall k in 1..len(z) :: x[k] == old(x[k])))
+//@   label $entry+21 hint Vdef(z, 0, 0)
+//@   label $entry+21 hint Vdef(old(x), 0, 0)
+//@   label $entry+21 hint Pdef(0)
+//@   label $entry+21 hint assert(V(z[:SI]) + CX*P(SI) == old(V(x[:SI])) + y)
+//@   label $entry+21 hint assert(wordsok(z[:SI]))
+//@   label U3 invariant[range] 1 <= SI && SI + 4 <= len(z) && DI == len(z) - SI - 4 && CX <= 1
+//@   label U3 invariant[words] wordsok(z[:SI])
+//@   label U3 invariant[value] V(z[:SI]) + CX*P(SI) == old(V(x[:SI])) + y
+//@   label U3 invariant[rest]  forall k in SI..len(z) :: x[k] == old(x[k])
+//@   label U3 modifies mem(z)
+//@   label U3+7 hint assert(z[SI] + CX*10000000000000000000 == old(x[SI]) + CX_0 && 0 <= z[SI] && z[SI] < B && CX <= 1)
+//@   label U3+7 hint Vdef(z, 0, SI)
+//@   label U3+7 hint Vdef(old(x), 0, SI)
+//@   label U3+7 hint Pdef(SI)
+//@   label U3+7 hint mul_eq(z[SI] + CX*10000000000000000000, old(x[SI]) + CX_0, P(SI))
+//@   label U3+7 hint mul_eq(P(SI+1), B*P(SI), CX)
+//@   label U3+7 hint assert(V(z[:SI+1]) + CX*P(SI+1) == old(V(x[:SI+1])) + y)
+//@   label U3+7 hint assert(wordsok(z[:SI+1]))
+//@   label U3+7 hint bind(gc1, CX)
+//@   label U3+13 hint assert(z[SI+1] + CX*10000000000000000000 == old(x[SI+1]) + gc1 && 0 <= z[SI+1] && z[SI+1] < B && CX <= 1)
+//@   label U3+13 hint Vdef(z, 0, SI+1)
+//@   label U3+13 hint Vdef(old(x), 0, SI+1)
+//@   label U3+13 hint Pdef(SI+1)
+//@   label U3+13 hint mul_eq(z[SI+1] + CX*10000000000000000000, old(x[SI+1]) + gc1, P(SI+1))
+//@   label U3+13 hint mul_eq(P(SI+2), B*P(SI+1), CX)
+//@   label U3+13 hint assert(V(z[:SI+2]) + CX*P(SI+2) == old(V(x[:SI+2])) + y)
+//@   label U3+13 hint assert(wordsok(z[:SI+2]))
+//@   label U3+13 hint bind(gc2, CX)
+//@   label U3+19 hint assert(z[SI+2] + CX*10000000000000000000 == old(x[SI+2]) + gc2 && 0 <= z[SI+2] && z[SI+2] < B && CX <= 1)
+//@   label U3+19 hint Vdef(z, 0, SI+2)
+//@   label U3+19 hint Vdef(old(x), 0, SI+2)
+//@   label U3+19 hint Pdef(SI+2)
+//@   label U3+19 hint mul_eq(z[SI+2] + CX*10000000000000000000, old(x[SI+2]) + gc2, P(SI+2))
+//@   label U3+19 hint mul_eq(P(SI+3), B*P(SI+2), CX)
+//@   label U3+19 hint assert(V(z[:SI+3]) + CX*P(SI+3) == old(V(x[:SI+3])) + y)
+//@   label U3+19 hint assert(wordsok(z[:SI+3]))
+//@   label U3+19 hint bind(gc3, CX)
+//@   label U3+25 hint assert(z[SI+3] + CX*10000000000000000000 == old(x[SI+3]) + gc3 && 0 <= z[SI+3] && z[SI+3] < B && CX <= 1)
+//@   label U3+25 hint Vdef(z, 0, SI+3)
+//@   label U3+25 hint Vdef(old(x), 0, SI+3)
+//@   label U3+25 hint Pdef(SI+3)
+//@   label U3+25 hint mul_eq(z[SI+3] + CX*10000000000000000000, old(x[SI+3]) + gc3, P(SI+3))
+//@   label U3+25 hint mul_eq(P(SI+4), B*P(SI+3), CX)
+//@   label U3+25 hint assert(V(z[:SI+4]) + CX*P(SI+4) == old(V(x[:SI+4])) + y)
+//@   label U3+25 hint assert(wordsok(z[:SI+4]))
+//@   label U3+25 hint forget(AX, BX, CX, V(z[:SI+4]) + CX*P(SI+4) == old(V(x[:SI+4])) + y && wordsok(z[:SI+4]) && CX <= 1 && (BX == 0 || BX == 18446744073709551615) && (BX == 0 <==> CX == 1))
+//@   label U3+26 hint assert(SI == SI_0 + 4 && SI <= len(z))
+//@   label V3+0 hint forget0(AX, BX, (DI + 4) % 18446744073709551616 == len(z) - SI && 1 <= SI && SI <= len(z) && CX <= 1 && wordsok(z[:SI]) && V(z[:SI]) + CX*P(SI) == old(V(x[:SI])) + y && (forall k in SI..len(z) :: x[k] == old(x[k])))
+//@   label C3+0 hint forget0(AX, BX, DI == len(z) - SI && CX == 0 && 1 <= SI && SI <= len(z) && CX <= 1 && wordsok(z[:SI]) && V(z[:SI]) + CX*P(SI) == old(V(x[:SI])) + y && (forall k in SI..len(z) :: x[k] == old(x[k])))
+//@   label decCpy.$entry+0 hint forget0(AX, BX, DX, SI, DI, DI == len(z) - SI && c == 0 && !samebase(z, x) && 0 <= SI && SI <= len(z) && wordsok(z[:SI]) && V(z[:SI]) == old(V(x[:SI])) + y && (forall k in SI..len(z) :: x[k] == old(x[k])))
+//@   label L3 invariant[range] 1 <= SI && SI < len(z) && DI == len(z) - SI && CX <= 1
+//@   label L3 invariant[words] wordsok(z[:SI])
+//@   label L3 invariant[value] V(z[:SI]) + CX*P(SI) == old(V(x[:SI])) + y
+//@   label L3 invariant[rest]  forall k in SI..len(z) :: x[k] == old(x[k])
+//@   label L3 modifies mem(z)
+//@   label L3+7 hint forget(AX, BX, CX, z[SI] + CX*10000000000000000000 == old(x[SI]) + CX_0 && 0 <= z[SI] && z[SI] < B && CX <= 1)
+//@   label L3+8 hint assert(SI == SI_0 + 1 && SI <= len(z))
+//@   label L3+8 hint Vdef(z, 0, SI-1)
+//@   label L3+8 hint Vdef(old(x), 0, SI-1)
+//@   label L3+8 hint Pdef(SI-1)
+//@   label L3+8 hint mul_eq(z[SI-1] + CX*10000000000000000000, old(x[SI-1]) + CX_0, P(SI-1))
+//@   label L3+8 hint mul_eq(P(SI), B*P(SI-1), CX)
+//@   label L3+8 hint assert(V(z[:SI]) + CX*P(SI) == old(V(x[:SI])) + y)
+//@   label L3+8 hint assert(wordsok(z[:SI]))
+//@   label decCpy.CU invariant[range] 0 <= SI && SI + 4 <= len(z) && DI == len(z) - SI - 4 && c == 0
+//@   label decCpy.CU invariant[words] wordsok(z[:SI])
+//@   label decCpy.CU invariant[value] V(z[:SI]) == old(V(x[:SI])) + y
+//@   label decCpy.CU invariant[rest]  forall k in SI..len(z) :: x[k] == old(x[k])
+//@   label decCpy.CU invariant[apart] !samebase(z, x)
+//@   label decCpy.CU modifies mem(z)
+//@   label decCpy.CU+11 hint assert(SI == SI_0 + 4 && z[SI-4] == old(x[SI-4]) && z[SI-3] == old(x[SI-3]) && z[SI-2] == old(x[SI-2]) && z[SI-1] == old(x[SI-1]))
+//@   label decCpy.CU+11 hint Vdef(z, 0, SI-1)
+//@   label decCpy.CU+11 hint Vdef(z, 0, SI-2)
+//@   label decCpy.CU+11 hint Vdef(z, 0, SI-3)
+//@   label decCpy.CU+11 hint Vdef(z, 0, SI-4)
+//@   label decCpy.CU+11 hint Vdef(old(x), 0, SI-1)
+//@   label decCpy.CU+11 hint Vdef(old(x), 0, SI-2)
+//@   label decCpy.CU+11 hint Vdef(old(x), 0, SI-3)
+//@   label decCpy.CU+11 hint Vdef(old(x), 0, SI-4)
+//@   label decCpy.CU+11 hint assert(V(z[:SI]) == old(V(x[:SI])) + y)
+//@   label decCpy.CU+11 hint assert(wordsok(z[:SI]))
+//@   label decCpy.CV+0 hint forget0(AX, BX, CX, DX, (DI + 4) % 18446744073709551616 == len(z) - SI && c == 0 && !samebase(z, x) && 0 <= SI && SI <= len(z) && wordsok(z[:SI]) && V(z[:SI]) == old(V(x[:SI])) + y && (forall k in SI..len(z) :: x[k] == old(x[k])))
+//@   label decCpy.CE+0 hint forget0(AX, BX, CX, DX, SI == len(z) && c == 0 && wordsok(z) && V(z) == old(V(x[:len(z)])) + y)
+//@   label decCpy.CLoop invariant[range] 0 <= SI && SI < len(z) && DI == len(z) - SI && c == 0
+//@   label decCpy.CLoop invariant[words] wordsok(z[:SI])
+//@   label decCpy.CLoop invariant[value] V(z[:SI]) == old(V(x[:SI])) + y
+//@   label decCpy.CLoop invariant[rest]  forall k in SI..len(z) :: x[k] == old(x[k])
+//@   label decCpy.CLoop invariant[apart] !samebase(z, x)
+//@   label decCpy.CLoop modifies mem(z)
+//@   label decCpy.CLoop+4 hint assert(SI == SI_0 + 1 && z[SI-1] == old(x[SI-1]))
+//@   label decCpy.CLoop+4 hint Vdef(z, 0, SI-1)
+//@   label decCpy.CLoop+4 hint Vdef(old(x), 0, SI-1)
+//@   label decCpy.CLoop+4 hint assert(V(z[:SI]) == old(V(x[:SI])) + y)
+//@   label decCpy.CLoop+4 hint assert(wordsok(z[:SI]))
+//@   hint[ret] SI <= len(z) ==> V_split(z, 0, SI, len(z))
+//@   hint[ret] SI <= len(z) ==> V_split(old(x), 0, SI, len(z))
+//@   hint[ret] SI <= len(z) ==> V_eq(z, old(x), SI, len(z))
+//@   tags safety C04,C07
 //@ func sub10VW(z, x []Word, y Word) (c Word)
 //@   same sub10VW_g
 //@   status assumed assembly
